@@ -1,8 +1,9 @@
 SPECIFICATION Spec
-CONSTANTS MaxBr = 3 MaxN = 6
+CONSTANTS MaxBr = 3 MaxN = 6 MaxRuns = 2
   Kinds <- KindsQuick
   BufSizes <- BufThorough
 INVARIANT OpEqDen
+INVARIANT AllActiveAtStart
 INVARIANT OutIsPrefix
 INVARIANT BufBound
 INVARIANT SrcOnlyOnEmpty
